@@ -133,6 +133,9 @@ def r2b_unreachable_ranges(rule, root=None):
         rule.lost("the quadrant match with an unreachable default")
 
 
+from .. import factrules as FR
+
+
 def run(ctx):
     r = ctx.rule("R1", "all eight evaluators check their arguments first and return the error; the checks cover every supplied slice", 12)
     ctx.guarded(r, r1_checks_dominate)
@@ -145,3 +148,5 @@ def run(ctx):
     r = ctx.rule("R4", "buffers handed to native code / indexed by the loops are sized to the tape first; shape scratch is resized per call", 22)
     ctx.guarded(r, C10.r1_buffers)
     ctx.guarded(r, SC.r_shape_scratch)
+    r = ctx.rule("R3f", "[resolved program] panic-capable MIR sites of the per-op data types are within the justified inventory", 60)
+    ctx.guarded(r, FR.data_cone_panics, ctx)
